@@ -30,12 +30,24 @@ def run(res):
             ob = Obligation(f"{c['target']}:supported", "vc", [], z3.BoolVal(False), c["target"], str(ex), func=c["target"])
             ob.verdict, ob.backend, ob.detail = "undecided", "engine", f"{type(ex).__name__}: {ex}"
             eng.obligations.append(ob)
-    res.obligations.extend(eng.obligations)
-    res.functions.extend(eng.functions_under_contract)
-    res.trusted |= eng.used_trusted
+    eng2 = Engine()
+    crashfs.install_unzip(eng2)
+    for c in cc.UNZIP_CONTRACTS:
+        eng2.contracts[c["target"]] = c
+        n0 = len(eng2.obligations)
+        try:
+            eng2.verify(c)
+        except (Unsupported, SpecError, KeyError, AttributeError, TypeError) as ex:
+            del eng2.obligations[n0:]
+            ob = Obligation(f"{c['target']}:supported", "vc", [], z3.BoolVal(False), c["target"], str(ex), func=c["target"])
+            ob.verdict, ob.backend, ob.detail = "undecided", "engine", f"{type(ex).__name__}: {ex}"
+            eng2.obligations.append(ob)
+    res.obligations.extend(eng.obligations + eng2.obligations)
+    res.functions.extend(eng.functions_under_contract + eng2.functions_under_contract)
+    res.trusted |= eng.used_trusted | eng2.used_trusted
     res.trusted |= {"fs-model: Path.mkdir and open(marker,'w') are atomic; shutil.rmtree may expose any subset of removed entries "
                     "(directory last); copytree/extractall/unzip jobs may expose any prefix of the payload and are complete on normal return"}
-    fails, n = rp.search(two_crashes=True)
+    fails, n = rp.search(two_crashes=True, thorough=(res.tier == "thorough"))
     labels = {}
     for f in fails:
         labels.setdefault(f["label"], f)
